@@ -490,15 +490,16 @@ def chooseCase (env : Env) (run : Run) (id : Nat) (d : Expr) (dflt : Option Expr
 
 def switchLookup (run : Run) (id : Nat) (d : Expr) (lookup : List (V × Expr)) (dflt : Option Expr)
     (o : V) : M Expr := do
-  let r ← attempt (run .evaluate d o)
-  match r with
-  | .error err =>
+  -- `try: key = self._dispatch(options) except EvaluationError: default (bare) or re-raise`
+  let r ← handle (do let key ← run .evaluate d o; pure (Sum.inl key)) fun err =>
     if err.isEvaluationError then
       match dflt with
       | Option.none => raise err
-      | some df => pure df
+      | some df => pure (Sum.inr df)
     else raise err
-  | .ok key =>
+  match r with
+  | .inr df => pure df
+  | .inl key =>
     if !hashable key then raise (errOther "TypeError") else
     match lookup.find? (fun p => pyEq p.1 key) with
     | some (_, br) => pure (.dependsOn (tid id 1) br d)
@@ -665,100 +666,120 @@ def withOptionsOp (run : Run) (x : Expr) (p : V) (force : Bool) (op : Op) (o : V
 
 /-! #### Cached -/
 
-def cachedOp (env : Env) (run : Run) (x : Expr) (c : Nat) (op : Op) (o : V) : M V :=
-  let disabled : M Bool :=
-    if env.cacheCtxOff then pure true else do
-      let v ← run .evaluate cacheDisabledOption o
-      pure v.truthy
-  -- `Cacheable.fingerprint`
-  let fingerprint : M V := do
-    let ks ← run .keys x o
-    let sorted := sortStrings (keyStrings ks)
-    let items ← mapM' (fun k => do let v ← getKey k o; pure (V.dict [(k, v)])) sorted
-    pure (.list items)
-  let lookupStore (fp : V) (what : String) : M (Option V) := do
-    let s ← getSt
-    match entryLookup fp (s.cacheEntries c) with
-    | some v => do emit (.cacheOp c what fp "hit"); pure (some v)
-    | Option.none => do emit (.cacheOp c what fp "miss"); pure Option.none
-  let forgetEntry (fp : V) : M Unit :=
-    modifySt fun s => s.setCacheEntries c (entryErase fp (s.cacheEntries c))
-  let backendGet : M V :=
-    match env.cacheKind c with
-    | .nocache => raise cacheGetFailure
-    | .memory => do
-      let fp ← fingerprint
-      match ← lookupStore fp "get" with
+/-- `_cache_disabled(request)`: the context manager, else the two option spellings -/
+def cacheDisabled (env : Env) (run : Run) (o : V) : M Bool :=
+  if env.cacheCtxOff then pure true else do
+    let v ← run .evaluate cacheDisabledOption o
+    pure v.truthy
+
+/-- the pure part of `Cacheable.fingerprint`: `[{k: get_dotted_key(k, o)} for k in sorted(keys)]` -/
+def fpItems (o : V) : List String → M (List V)
+  | [] => pure []
+  | k :: ks => do
+    let v ← getKey k o
+    let rest ← fpItems o ks
+    pure (V.dict [(k, v)] :: rest)
+
+/-- `Cacheable.fingerprint(options)` of node `x` -/
+def fingerprintOf (run : Run) (x : Expr) (o : V) : M V := do
+  let ks ← run .keys x o
+  let items ← fpItems o (sortStrings (keyStrings ks))
+  pure (.list items)
+
+def lookupStore (c : Nat) (fp : V) (what : String) : M (Option V) := do
+  let s ← getSt
+  match entryLookup fp (s.cacheEntries c) with
+  | some v => do emit (.cacheOp c what fp "hit"); pure (some v)
+  | Option.none => do emit (.cacheOp c what fp "miss"); pure Option.none
+
+def forgetEntry (c : Nat) (fp : V) : M Unit :=
+  modifySt fun s => s.setCacheEntries c (entryErase fp (s.cacheEntries c))
+
+def storeEntry (c : Nat) (fp v : V) : M Unit := do
+  modifySt fun s => s.setCacheEntries c (entryInsert fp v (s.cacheEntries c))
+  emit (.cacheOp c "set" fp "stored")
+
+/-- `cache.get(evaluatable, options)` of the backend kinds -/
+def backendGet (env : Env) (run : Run) (x : Expr) (c : Nat) (o : V) : M V :=
+  match env.cacheKind c with
+  | .nocache => raise cacheGetFailure
+  | .memory => do
+    let fp ← fingerprintOf run x o
+    match ← lookupStore c fp "get" with
+    | some v => pure v
+    | Option.none => raise cacheGetFailure
+  | .scripted => do
+    let fp ← fingerprintOf run x o
+    let f ← nextFault c
+    match f with
+    | .miss | .failGet => do emit (.cacheOp c "get" fp "fault"); raise cacheGetFailure
+    | .forget => do forgetEntry c fp; emit (.cacheOp c "get" fp "fault"); raise cacheGetFailure
+    | _ =>
+      match ← lookupStore c fp "get" with
       | some v => pure v
       | Option.none => raise cacheGetFailure
-    | .scripted => do
-      let fp ← fingerprint
-      let f ← nextFault c
-      match f with
-      | .miss | .failGet => do emit (.cacheOp c "get" fp "fault"); raise cacheGetFailure
-      | .forget => do forgetEntry fp; emit (.cacheOp c "get" fp "fault"); raise cacheGetFailure
-      | _ =>
-        match ← lookupStore fp "get" with
-        | some v => pure v
-        | Option.none => raise cacheGetFailure
-  let backendExists : M Bool :=
-    match env.cacheKind c with
-    | .nocache => pure false
-    | .memory => do
-      let fp ← fingerprint
-      let r ← lookupStore fp "exists"
+
+def backendExists (env : Env) (run : Run) (x : Expr) (c : Nat) (o : V) : M Bool :=
+  match env.cacheKind c with
+  | .nocache => pure false
+  | .memory => do
+    let fp ← fingerprintOf run x o
+    let r ← lookupStore c fp "exists"
+    pure r.isSome
+  | .scripted => do
+    let fp ← fingerprintOf run x o
+    let f ← nextFault c
+    match f with
+    | .miss => do emit (.cacheOp c "exists" fp "fault"); pure false
+    | .lieExists => do emit (.cacheOp c "exists" fp "fault"); pure true
+    | .forget => do forgetEntry c fp; emit (.cacheOp c "exists" fp "fault"); pure false
+    | _ => do
+      let r ← lookupStore c fp "exists"
       pure r.isSome
-    | .scripted => do
-      let fp ← fingerprint
-      let f ← nextFault c
-      match f with
-      | .miss => do emit (.cacheOp c "exists" fp "fault"); pure false
-      | .lieExists => do emit (.cacheOp c "exists" fp "fault"); pure true
-      | .forget => do forgetEntry fp; emit (.cacheOp c "exists" fp "fault"); pure false
-      | _ => do
-        let r ← lookupStore fp "exists"
-        pure r.isSome
-  let backendSet (v : V) : M Unit :=
-    match env.cacheKind c with
-    | .nocache => pure ()
-    | .memory => do
-      let fp ← fingerprint
-      modifySt fun s => s.setCacheEntries c (entryInsert fp v (s.cacheEntries c))
-      emit (.cacheOp c "set" fp "stored")
-    | .scripted => do
-      let fp ← fingerprint
-      let f ← nextFault c
-      match f with
-      | .miss | .forget => emit (.cacheOp c "set" fp "fault")
-      | _ => do
-        modifySt fun s => s.setCacheEntries c (entryInsert fp v (s.cacheEntries c))
-        emit (.cacheOp c "set" fp "stored")
-  -- the three request handlers
-  let existsReq : M Bool := do
-    emit (.req "cache_exists" x.id)
-    if ← disabled then pure false else backendExists
-  let getReq : M V := do
-    emit (.req "cache_get" x.id)
-    if ← disabled then raise cacheGetFailure else backendGet
-  let setReq (v : V) : M V := do
-    emit (.req "cache_set" x.id)
-    if ← disabled then pure v else do
-      backendSet v
-      handle backendGet fun err => if err = cacheGetFailure then pure v else raise err
+
+def backendSet (env : Env) (run : Run) (x : Expr) (c : Nat) (o : V) (v : V) : M Unit :=
+  match env.cacheKind c with
+  | .nocache => pure ()
+  | .memory => do
+    let fp ← fingerprintOf run x o
+    storeEntry c fp v
+  | .scripted => do
+    let fp ← fingerprintOf run x o
+    let f ← nextFault c
+    match f with
+    | .miss | .forget => emit (.cacheOp c "set" fp "fault")
+    | _ => storeEntry c fp v
+
+/-- the three request handlers of `labrea.cache` -/
+def existsReq (env : Env) (run : Run) (x : Expr) (c : Nat) (o : V) : M Bool := do
+  emit (.req "cache_exists" x.id)
+  if ← cacheDisabled env run o then pure false else backendExists env run x c o
+
+def getReq (env : Env) (run : Run) (x : Expr) (c : Nat) (o : V) : M V := do
+  emit (.req "cache_get" x.id)
+  if ← cacheDisabled env run o then raise cacheGetFailure else backendGet env run x c o
+
+def setReq (env : Env) (run : Run) (x : Expr) (c : Nat) (o : V) (v : V) : M V := do
+  emit (.req "cache_set" x.id)
+  if ← cacheDisabled env run o then pure v else do
+    backendSet env run x c o v
+    handle (backendGet env run x c o) fun err => if err = cacheGetFailure then pure v else raise err
+
+def cachedOp (env : Env) (run : Run) (x : Expr) (c : Nat) (op : Op) (o : V) : M V :=
   match op with
   | .evaluate => do
     let hit ← (do
-      if ← existsReq then
-        handle (do let v ← getReq; pure (some v)) fun err =>
+      if ← existsReq env run x c o then
+        handle (do let v ← getReq env run x c o; pure (some v)) fun err =>
           if err = cacheGetFailure then pure Option.none else raise err
       else pure Option.none)
     match hit with
     | some v => pure v
     | Option.none => do
       let v ← run .evaluate x o
-      setReq v
+      setReq env run x c o v
   | .validate => do
-    if ← existsReq then pure .none else run .validate x o
+    if ← existsReq env run x c o then pure .none else run .validate x o
   | .keys => run .keys x o
   | .explain => run .explain x o
 
